@@ -1,16 +1,25 @@
 """C15 — receive-side bandwidth estimation (rate.py) never fails and stays within its safety bounds.
 
-Correspondence: the compiled Lean model (lean/Aiortc/Model/Rate*.lean) against the real classes of
-src/aiortc/rate.py on generated arrival histories: integers (estimates, SSRC lists, controller / detector
-states, window totals) are compared exactly, every float of the state (Kalman matrix, offset, slope, noise,
-threshold, max-throughput statistics) bit for bit through a rolling hash of the IEEE-754 patterns.
-Oracle: the property evaluated on the implementation alone (no exception, REMB-encodable non-negative
-integer estimates with exactly the SSRCs seen, 1.5·m+10k cap, 85 % cut on over-use, window exactness
-recomputed from the raw history).
+Two separate things are computed for every generated case, and they look at the implementation differently:
+
+* ORACLE (the property, evaluated on the implementation alone): uses ONLY the public behaviour — the sequence of
+  `RemoteBitrateEstimator.add(arrival_time_ms, abs_send_time, payload_size, ssrc)` calls and the `(bitrate, ssrcs)` REMB
+  results they return (for the component tests: `RateCounter.add/rate/reset`, `AimdRateControl.update`).  What "the packets of
+  the last 1000 ms", "the measured incoming bitrate", "the latest measurement", "85 %", "1.5·m + 10000" mean is recomputed from
+  the INPUTS by a reference meter (`RefMeter`).  Over-use is inferred from the outputs: the estimator reports at most every
+  500 ms unless it detected over-use, so a report that follows the previous one within ≤ 500 ms is an over-use report.
+  In addition — optional, skipped when the names are not there — the two public observation points named by the property
+  (`estimator.incoming_bitrate.rate(now)`, `estimator.detector.state()`) are compared with the reference.
+* CORRESPONDENCE (what ties the Lean model lean/Aiortc/Model/Rate*.lean to the code): the returned values first, then —
+  optional — internal state (integers exactly, every float bit for bit through a rolling hash).  Every internal name is read
+  through `_f(...)`: a missing / renamed attribute becomes the field `?`, i.e. a model/implementation DISAGREEMENT ("the
+  correspondence of that component is broken", reported as `no-failing-input-found`), never an exception that would be
+  presented as a failing input of the property.
 """
 from __future__ import annotations
 
 import json
+import os
 import struct
 from collections import deque
 from fractions import Fraction
@@ -22,11 +31,12 @@ DRIVERS = ["Rate"]
 MANIFEST = {
     "technique": "Lean 4 theorems (ring-buffer invariant by induction, integer control flow of the AIMD controller by case analysis) "
                  "over an executable model of rate.py + differential run of the compiled model (Lean Float, bit-exact) against the real classes "
-                 "+ implementation-side oracle recomputing window sums and bounds",
+                 "+ implementation-side oracle that recomputes window sums, measurements and bounds from the inputs and looks only at returned values",
     "text": "RateCounter is modelled exactly in integers: the ring buffer total is proved to be the count / byte sum of exactly the samples of the last "
             "window_size ms for every non-decreasing history, and no bucket access or modulo can raise. The integer control flow of "
             "AimdRateControl.update (with fixes/C15-near-max-zero-division.patch) is proved never to divide by zero or use an unset time, never to "
-            "report more than max(int(1.5·m)+10000, previous estimate), to cut to round(0.85·m) on over-use, and to keep estimates non-negative; "
+            "report more than max(int(1.5·m)+10000, previous estimate), to cut to exactly round(0.85·m) on over-use (m = the measurement passed in, 0 included, "
+            "else the latest one, which every reporting update records), and to keep estimates non-negative; "
             "RemoteBitrateEstimator.add reports exactly the SSRCs seen in first-seen order, and the REMB exponent loop terminates with exponent ≤ 63 "
             "for estimates below 2^81. The float recurrences (inter-arrival rounding, Kalman filter, adaptive threshold, max-throughput statistics) are "
             "executed with Lean Float and compared bit for bit with CPython after every packet; float-derived integers enter the theorems as opaque "
@@ -38,12 +48,15 @@ MANIFEST = {
 ASSUMPTIONS = [
     "arrival times are non-decreasing (as in the property); payload sizes are ≥ 0",
     "float hypotheses of the AIMD theorems, checked by the harness on every evaluated measurement m ≥ 0: int(1.5·m) ≤ ⌊3m/2⌋ and m ≤ int(1.5·m) "
-    "(exact for m < 2^51), 0 ≤ round(0.85·m) ≤ 0.85·m + 1, and the additive / multiplicative increase is ≥ 0",
+    "(exact for m < 2^51), 0 ≤ round(0.85·m) ≤ 0.85·m + 1, round(0.85·m) ≤ int(1.5·m) + 10000, and the additive / multiplicative increase is ≥ 0",
     "float→int conversions inside AimdRateControl.update succeed (finite operands): the theorems prove that no *other* exception kind "
     "(ZeroDivisionError, TypeError, IndexError) is possible; finiteness itself is a float fact covered by correspondence",
     "RateCounter.rate: round(scale·bytes / active_window) is modelled as exact half-to-even rounding of the rational; equal to the float computation "
     "for rates below 2^40 bit/s (argument in notes/C15.md), compared exactly on every case",
     "REMB encodability additionally needs at most 255 distinct SSRCs per receiver (struct format 'B' for the count) and an estimate below 2^81",
+    "oracle: an estimate reported ≤ 500 ms (AimdRateControl.feedback_interval()) after the previous one is taken to be an over-use report — the only "
+    "reason rate.py reports early; the active window of the measurement is anchored as rate.py does it (first packet; re-anchored by the first packet "
+    "that finds no measurement available after one had been available), recomputed from the arrival times alone",
 ]
 TRUSTED_EXTRA = [
     "Lean Float = IEEE-754 binary64 with the platform libm (pow, sqrt), same as CPython's float on this machine; decimal literals are parsed to the "
@@ -52,17 +65,21 @@ TRUSTED_EXTRA = [
     "the receiver glue (rtcrtpreceiver.py:461-478) is read, not modelled: it passes len(payload)+padding_size ≥ 0, the 24-bit abs_send_time and "
     "clock.current_ms() to RemoteBitrateEstimator.add and feeds the result to pack_remb_fci; the oracle calls pack_remb_fci/unpack_remb_fci on every estimate",
 ]
-RULE = ("rbe: arrival histories built from scenario segments (frame bursts, constant spacing, delay ramps up/down, jitter, idle gaps beyond the window, "
-        "sizes 0..1500 incl. all-zero and tiny-rate streams, send-time origin near the 24-bit wrap, 1-4 SSRCs) plus a raw stream of arbitrary "
-        "gaps/stamps/sizes; counter: add/rate/reset op sequences for several window sizes with gaps around the window; aimd: update() sequences with "
-        "boundary throughputs (0, tiny, typical, huge, None); distinct = distinct canonical case (sha1 of JSON); non-trivial = at least one estimate, "
-        "rate or state change observed")
+RULE = ("rbe: arrival histories built from scenario segments (frame bursts whose packets share ONE arrival millisecond — at stream start and right after idle "
+        "gaps of 999/1000/1001/5000 ms —, constant spacing, delay ramps up/down incl. a queue building up right after a gap, jitter, phases ≥ 1000 ms of "
+        "zero-size payloads followed by over-use, sizes 0..1500 incl. all-zero and tiny-rate streams, send-time origin near the 24-bit wrap, 1-4 SSRCs) plus a raw "
+        "stream of arbitrary gaps/stamps/sizes; counter: add/rate/reset op sequences for several window sizes with gaps around the window and repeated "
+        "adds in one millisecond; aimd: update() sequences with boundary throughputs (0, tiny, typical, huge, None); distinct = distinct canonical case "
+        "(sha1 of JSON); non-trivial = at least one estimate, rate or state change observed")
 
 M61 = 2305843009213693951
+#: VERIF_C15_IO_ONLY=1 switches the optional public observation points (incoming_bitrate.rate / detector.state) off: the oracle then
+#: sees add() calls and return values only (used in the self-test to show that it still finds the seeded regressions by itself)
+IO_ONLY = os.environ.get("VERIF_C15_IO_ONLY") == "1"
 
 
 # ----------------------------------------------------------------------------------------------
-# helpers shared by impl / oracle
+# helpers
 # ----------------------------------------------------------------------------------------------
 
 def _fbits(x) -> int:
@@ -84,10 +101,16 @@ def _mix(bits) -> int:
 
 
 def _oi(x) -> str:
-    return "-" if x is None else str(x)
+    if x is None:
+        return "-"
+    if isinstance(x, bool) or not isinstance(x, int):
+        raise TypeError("not an int")
+    return str(x)
 
 
 def _b(x) -> str:
+    if not isinstance(x, bool):
+        raise TypeError("not a bool")
     return "1" if x else "0"
 
 
@@ -97,9 +120,18 @@ def _exc(exc: BaseException) -> str:
     return "crash " + type(exc).__name__
 
 
+def _f(fn) -> str:
+    """OPTIONAL observation of internal state for the correspondence: `?` when the name is gone or has another shape."""
+    try:
+        return fn()
+    except Exception:
+        return "?"
+
+
 def _aimd_ints(rc) -> str:
-    return ",".join([str(rc.state.value), str(rc.current_bitrate), _b(rc.near_max), _b(rc.current_bitrate_initialized),
-                     str(rc.latest_estimated_throughput), _oi(rc.first_estimated_throughput_time), _oi(rc.last_change_ms)])
+    return ",".join(_f(fn) for fn in (
+        lambda: str(int(rc.state.value)), lambda: _oi(rc.current_bitrate), lambda: _b(rc.near_max), lambda: _b(rc.current_bitrate_initialized),
+        lambda: _oi(rc.latest_estimated_throughput), lambda: _oi(rc.first_estimated_throughput_time), lambda: _oi(rc.last_change_ms)))
 
 
 def _aimd_floats(rc):
@@ -119,140 +151,265 @@ def _cut_ok(ret: int, m: int) -> bool:
     return 100 * ret <= 85 * m + 100
 
 
+def _cut_exact(ret: int, m: int) -> bool:
+    # round(0.85·m) up to the rounding (and, for m ≥ 2^40, the float error of the product)
+    return 100 * ret >= 85 * m - 100 - (m >> 40)
+
+
 def _guard(fn, *args):
-    """Run an implementation runner; an exception escaping it (e.g. an attribute of the real classes that no longer exists)
-    is reported as a failure of the case, never as an infrastructure error."""
+    """A harness-side exception (not one raised by the public calls under test, those are handled inside the runners) means the
+    implementation could not be OBSERVED the way the correspondence wants: that breaks the correspondence (impl string differs from
+    the model's), it is not a failing input of the property."""
     try:
         return fn(*args)
     except Exception as exc:
-        return _exc(exc), f"the implementation could not be driven / observed: {type(exc).__name__}: {exc}", {"raise"}
+        return f"unobservable {type(exc).__name__}: {str(exc)[:120]}", None, {"unobservable"}
+
+
+class RefMeter:
+    """What "the measured incoming bitrate" means, computed from the arrival history alone.
+
+    bytes   = payload bytes of exactly the packets with  now − window < arrival ≤ now  (nothing is ever forgotten earlier);
+    active  = now − origin + 1, origin = max(anchor, now − window + 1); the anchor is the first packet of the stream and is renewed by
+              the first packet that finds no measurement available after one had been available (`armed`);
+    rate    = None if no packet is in the window or active ≤ 1, else scale·bytes/active rounded half to even.
+    """
+
+    def __init__(self, window: int = 1000, scale: int = 8000):
+        self.window, self.scale = window, scale
+        self.win = deque()
+        self.bytes = 0
+        self.origin = None
+        self.armed = True
+        self.reanchored = False
+
+    def _expire(self, now):
+        while self.win and self.win[0][0] <= now - self.window:
+            self.bytes -= self.win.popleft()[1]
+        if self.origin is not None:
+            self.origin = max(self.origin, now - self.window + 1)
+
+    def active(self, now):
+        return None if self.origin is None else now - self.origin + 1
+
+    def rate(self, now):
+        self._expire(now)
+        if self.origin is None or not self.win or now - self.origin + 1 <= 1:
+            return None
+        return _round_half_even(self.scale * self.bytes, now - self.origin + 1)
+
+    def packet(self, now, size):
+        self.reanchored = False
+        if self.rate(now) is not None:
+            self.armed = True
+        elif self.armed:
+            self.reanchored = self.origin is not None
+            self.origin = None
+            self.armed = False
+        if self.origin is None:
+            self.origin = now
+        self.win.append((now, size))
+        self.bytes += size
 
 
 # ----------------------------------------------------------------------------------------------
 # component 1: the whole RemoteBitrateEstimator
 # ----------------------------------------------------------------------------------------------
 
+def _ret_str(ret) -> str:
+    if ret is None:
+        return "-"
+    return _f(lambda: _oi(ret[0]) + "/" + ".".join(_oi(s) for s in ret[1]))
+
+
 def _rbe_record(est, ret, verbose=False) -> str:
-    rc, det, oe, cnt = est.rate_control, est.detector, est.estimator, est.incoming_bitrate
-    rs = "-" if ret is None else str(ret[0]) + "/" + ".".join(str(s) for s in ret[1])
-    ints = ",".join([str(det.hypothesis.value), _aimd_ints(rc), str(oe._num_of_deltas), str(det.overuse_counter),
-                     str(cnt._total.count), str(cnt._total.value), _oi(cnt._origin_ms),
-                     _b(est.incoming_bitrate_initialized), _oi(est.last_update_ms), _oi(det.last_update_ms)])
-    fl = _aimd_floats(rc) + [_obits(det.overuse_time), _fbits(det.previous_offset), _fbits(det.threshold)] + \
-        [_fbits(oe.E[0][0]), _fbits(oe.E[0][1]), _fbits(oe.E[1][0]), _fbits(oe.E[1][1]), _fbits(oe._offset),
-         _fbits(oe.previous_offset), _fbits(oe.slope), _fbits(oe.avg_noise), _fbits(oe.var_noise)] + \
-        [_fbits(x) for x in oe.ts_delta_hist]
-    f = ".".join(format(b, "x") for b in fl) if verbose else format(_mix(fl), "x")
-    return rs + "|" + ints + "|" + f
+    """returned value | internal integers (optional) | internal floats (optional)"""
+    ints = ",".join(_f(fn) for fn in (
+        lambda: str(int(est.detector.hypothesis.value)), lambda: _aimd_ints(est.rate_control),
+        lambda: _oi(est.estimator._num_of_deltas), lambda: _oi(est.detector.overuse_counter),
+        lambda: _oi(est.incoming_bitrate._total.count), lambda: _oi(est.incoming_bitrate._total.value),
+        lambda: _oi(est.incoming_bitrate._origin_ms), lambda: _b(est.incoming_bitrate_initialized),
+        lambda: _oi(est.last_update_ms), lambda: _oi(est.detector.last_update_ms)))
+
+    def floats():
+        rc, det, oe = est.rate_control, est.detector, est.estimator
+        fl = _aimd_floats(rc) + [_obits(det.overuse_time), _fbits(det.previous_offset), _fbits(det.threshold)] + \
+            [_fbits(oe.E[0][0]), _fbits(oe.E[0][1]), _fbits(oe.E[1][0]), _fbits(oe.E[1][1]), _fbits(oe._offset),
+             _fbits(oe.previous_offset), _fbits(oe.slope), _fbits(oe.avg_noise), _fbits(oe.var_noise)] + \
+            [_fbits(x) for x in oe.ts_delta_hist]
+        return ".".join(format(b, "x") for b in fl) if verbose else format(_mix(fl), "x")
+
+    return _ret_str(ret) + "|" + ints + "|" + _f(floats)
 
 
-def run_rbe(packets, verbose=False):
-    """Run the real estimator; returns (canonical string, first property failure or None, feature flags)."""
-    from aiortc.rate import BandwidthUsage, RateControlState, RemoteBitrateEstimator
+_SKIP = object()
+
+
+def observe_rbe(packets, verbose=False):
+    """Drive the real estimator through its public `add`.  Returns
+    (canonical string for the correspondence, rets, (index, exception) or None, optional public observations)."""
+    from aiortc.rate import RemoteBitrateEstimator
+
+    rets, recs = [], []
+    pub = {"rate": [], "over": [], "internal": set()}
+    try:
+        est = RemoteBitrateEstimator()
+    except Exception as exc:
+        return _exc(exc), rets, (-1, exc), pub
+    for i, (now, abs_, size, ssrc) in enumerate(packets):
+        try:
+            ret = est.add(arrival_time_ms=now, abs_send_time=abs_, payload_size=size, ssrc=ssrc)
+        except Exception as exc:  # the property: never raises
+            return _exc(exc), rets, (i, exc), pub
+        rets.append(ret)
+        recs.append(_rbe_record(est, ret, verbose))
+        # optional public observation points named by the property (observe_at): RateCounter.rate(), detector state
+        m = over = _SKIP
+        if not IO_ONLY:
+            try:
+                m = est.incoming_bitrate.rate(now)
+            except (AttributeError, TypeError):
+                m = _SKIP
+            except Exception as exc:
+                m = exc
+            try:
+                over = est.detector.state().name == "OVERUSING"
+                if est.detector.state().name == "UNDERUSING":
+                    pub["internal"].add("underuse")
+            except Exception:
+                over = _SKIP
+        pub["rate"].append(m)
+        pub["over"].append(over)
+        # labels only (which branches of the controller were reached); optional
+        if ret is not None:
+            try:
+                rc = est.rate_control
+                if rc.state.name == "INCREASE":
+                    pub["internal"].add("inc-add" if rc.near_max else "inc-mul")
+                if rc.current_bitrate_initialized:
+                    pub["internal"].add("init")
+            except Exception:
+                pass
+    return "ok " + ";".join(recs), rets, None, pub
+
+
+def oracle_rbe(packets, rets, exc_at, pub):
+    """The property on the implementation: inputs, returned values (and the optional public observation points).
+    Returns (first failure or None, flags)."""
     from aiortc.rtp import pack_remb_fci, unpack_remb_fci
 
-    est = RemoteBitrateEstimator()
-    recs = []
+    flags = set(pub["internal"])
     failure = None
-    flags = set()
-    seen = []
-    window = deque()
-    wbytes = 0
-    last_now = None
 
     def fail(msg):
         nonlocal failure
         if failure is None:
             failure = msg
 
+    if exc_at is not None and exc_at[0] < 0:
+        return f"RemoteBitrateEstimator() raised {type(exc_at[1]).__name__}: {exc_at[1]}", {"raise"}
+    ref = RefMeter(1000, 8000)
+    seen = []
+    last_now = None
+    last_report = None      # arrival time of the previous report
+    prev = 0                # previous estimate (none yet: an estimate has nothing to stay at)
+    latest = None           # measurement at the latest report that had one
     for i, (now, abs_, size, ssrc) in enumerate(packets):
-        monotone = last_now is None or now >= last_now
-        if not monotone:
+        if exc_at is not None and i == exc_at[0]:
+            fail(f"packet {i}: RemoteBitrateEstimator.add raised {type(exc_at[1]).__name__}: {exc_at[1]}")
+            flags.add("raise")
+            break
+        if last_now is not None and now < last_now:
             flags.add("backwards")
         last_now = now if last_now is None else max(last_now, now)
-        rc = est.rate_control
-        cur_before = rc.current_bitrate
-        latest_before = rc.latest_estimated_throughput
-        hyp_before = est.detector.hypothesis
-        resets_before = est.incoming_bitrate_initialized
-        try:
-            ret = est.add(arrival_time_ms=now, abs_send_time=abs_, payload_size=size, ssrc=ssrc)
-        except Exception as exc:  # the property: never raises
-            fail(f"packet {i}: RemoteBitrateEstimator.add raised {type(exc).__name__}: {exc}")
-            return _exc(exc), failure, flags | {"raise"}
-        recs.append(_rbe_record(est, ret, verbose))
+        ret = rets[i]
         if ssrc not in seen:
             seen.append(ssrc)
-        if resets_before and not est.incoming_bitrate_initialized and i > 0:
+        same_ms_as_anchor = ref.origin is not None and ref.origin == now and len(ref.win) > 0
+        ref.packet(now, size)
+        if ref.reanchored:
             flags.add("reset")
-        # ---- window exactness, recomputed from the raw history
-        window.append((now, size))
-        wbytes += size
-        while window and window[0][0] <= now - 1000:
-            wbytes -= window.popleft()[1]
-        cnt = est.incoming_bitrate
-        if "backwards" not in flags:
-            if cnt._total.count != len(window) or cnt._total.value != wbytes:
-                fail(f"packet {i}: RateCounter total ({cnt._total.count} pkts, {cnt._total.value} B) differs from the packets that arrived in "
-                     f"({now - 1000}, {now}] ({len(window)} pkts, {wbytes} B)")
-            origin = cnt._origin_ms
-            if origin is None or not (now - 999 <= origin <= now):
-                fail(f"packet {i}: RateCounter origin {origin} outside [{now - 999}, {now}]")
-            try:
-                m = cnt.rate(now)
-            except Exception as exc:
-                fail(f"packet {i}: RateCounter.rate raised {type(exc).__name__}")
-                return _exc(exc), failure, flags | {"raise"}
-            if origin is not None:
-                active = now - origin + 1
-                want = _round_half_even(8000 * wbytes, active) if (len(window) > 0 and active > 1) else None
-                if m != want:
-                    fail(f"packet {i}: rate() = {m}, but 8000·{wbytes}/{active} rounds to {want}")
-        else:
-            m = cnt.rate(now)
-        # ---- estimate checks
-        hyp = est.detector.hypothesis
-        if hyp == BandwidthUsage.OVERUSING:
-            flags.add("overuse")
-        elif hyp == BandwidthUsage.UNDERUSING:
-            flags.add("underuse")
-        if hyp != hyp_before:
-            flags.add("hyp-change")
-        m_eff = m if m is not None else latest_before
+        if same_ms_as_anchor and ref.origin == now:
+            flags.add("burst@anchor")
+        m = ref.rate(now)
+        mono = "backwards" not in flags
         if m is None:
             flags.add("rate-none")
-        if hyp == BandwidthUsage.OVERUSING and ret is None:
-            fail(f"packet {i}: over-use detected but no estimate reported")
-        if ret is not None:
-            flags.add("estimate")
+        # ---- optional public observation points
+        got = pub["rate"][i]
+        if got is not _SKIP and mono:
+            if isinstance(got, Exception):
+                fail(f"packet {i}: incoming_bitrate.rate({now}) raised {type(got).__name__}: {got}")
+            elif got != m:
+                fail(f"packet {i}: the incoming bitrate measured at t={now} is {got} bit/s, but the packets that arrived in ({now - 1000}, {now}] "
+                     f"are {len(ref.win)} packets / {ref.bytes} B over an active window of {ref.active(now)} ms = {m} bit/s")
+        over = pub["over"][i]
+        if over is True:
+            flags.add("overuse")
+            if ret is None:
+                fail(f"packet {i}: over-use detected (detector.state()) but no estimate reported")
+        if ret is None:
+            continue
+        # ---- a report
+        flags.add("estimate")
+        try:
             v, ssrcs = ret
-            if type(v) is not int or v < 0:
-                fail(f"packet {i}: estimate {v!r} is not a non-negative integer")
-            else:
-                try:
-                    fci = pack_remb_fci(v, ssrcs)
-                    v2, ssrcs2 = unpack_remb_fci(fci)
-                    if ssrcs2 != ssrcs or v2 > v or (v - v2) * (1 << 17) > v:
-                        fail(f"packet {i}: REMB round trip of ({v}, {ssrcs}) gives ({v2}, {ssrcs2})")
-                except Exception as exc:
-                    fail(f"packet {i}: pack_remb_fci({v}, {len(ssrcs)} ssrcs) raised {type(exc).__name__}")
-            if list(ssrcs) != seen:
-                fail(f"packet {i}: reported SSRCs {ssrcs} are not the SSRCs seen {seen}")
-            if type(v) is int and m_eff >= 0:
-                if not _cap_ok(v, m_eff, cur_before):
-                    fail(f"packet {i}: estimate {v} rose above 1.5·{m_eff}+10000 (previous estimate {cur_before})")
-                if hyp == BandwidthUsage.OVERUSING and not _cut_ok(v, m_eff):
-                    fail(f"packet {i}: over-use detected but estimate {v} > 85 % of the measured {m_eff}")
+            ssrcs = list(ssrcs)
+        except Exception:
+            fail(f"packet {i}: add returned {ret!r}, not (bitrate, ssrcs)")
+            break
+        early = last_report is not None and 0 <= now - last_report <= 500
+        if early:
+            flags.add("overuse")
+        overuse = early or over is True
+        if type(v) is not int or v < 0:
+            fail(f"packet {i}: estimate {v!r} is not a non-negative integer")
+        else:
+            try:
+                fci = pack_remb_fci(v, ssrcs)
+                v2, ssrcs2 = unpack_remb_fci(fci)
+                if ssrcs2 != ssrcs or v2 > v or (v - v2) * (1 << 17) > v:
+                    fail(f"packet {i}: REMB round trip of ({v}, {ssrcs}) gives ({v2}, {ssrcs2})")
+            except Exception as exc:
+                fail(f"packet {i}: pack_remb_fci({v}, {len(ssrcs)} ssrcs) raised {type(exc).__name__}")
+            if sorted(ssrcs) != sorted(seen):
+                fail(f"packet {i}: reported SSRCs {ssrcs} are not exactly the SSRCs seen {seen}")
+            m_eff = m if m is not None else latest
+            if mono and m_eff is not None:
+                what = (f"the {m_eff} bit/s measured over the packets of the last 1000 ms" if m is not None
+                        else f"the latest measurement {m_eff} bit/s (none available now)")
+                if m_eff == 0:
+                    flags.add("zero-rate")
+                if not _cap_ok(v, m_eff, prev):
+                    fail(f"packet {i}: estimate {v} rose above 1.5·m+10000 with m = {what} (previous estimate {prev})")
+                if overuse:
+                    if m_eff == 0:
+                        flags.add("overuse@zero-rate")
+                    why = "reported only %d ms after the previous estimate, i.e. on over-use" % (now - last_report) if early else "detector.state() is OVERUSING"
+                    if not _cut_ok(v, m_eff):
+                        fail(f"packet {i}: over-use ({why}) but the estimate {v} is more than 85 % of {what}")
+                    elif not _cut_exact(v, m_eff):
+                        fail(f"packet {i}: over-use ({why}): the estimate {v} is not 85 % of {what} = {round(0.85 * m_eff)}; "
+                             f"the measurement behind it does not cover exactly the packets that arrived in ({now - 1000}, {now}]")
             if v == 0:
                 flags.add("zero-estimate")
-            if rc.state == RateControlState.INCREASE:
-                flags.add("inc-add" if rc.near_max else "inc-mul")
-            if rc.current_bitrate_initialized:
-                flags.add("init")
-    return "ok " + ";".join(recs), failure, flags
+            prev = v
+        if m is not None:
+            latest = m
+        last_report = now
+    return failure, flags
+
+
+def run_rbe(packets, verbose=False):
+    out, rets, exc_at, pub = observe_rbe(packets, verbose)
+    failure, flags = oracle_rbe(packets, rets, exc_at, pub)
+    return out, failure, flags
 
 
 # ---- generators -----------------------------------------------------------------------------
+
+IDLE_GAPS = [999, 1000, 1001, 1500, 3001, 5000]
+
 
 def _gen_history(rng, tier):
     """Scenario-built arrival history: list of [arrival_ms, abs_send_time, size, ssrc]."""
@@ -271,13 +428,14 @@ def _gen_history(rng, tier):
         seg = rng.choice(["frames", "const", "ramp-up", "ramp-up", "ramp-down", "jitter", "idle", "burst", "steady-ramp"])
         seg_len = rng.randrange(5, 80)
         if seg == "idle":
-            gap = rng.choice([999, 1000, 1001, 1500, 3001, rng.randrange(1000, 12000)])
+            gap = rng.choice(IDLE_GAPS + [rng.randrange(1000, 12000)])
             send += gap
             delay = max(0.0, delay - gap)
             seg_len = 1
         slope = {"ramp-up": rng.uniform(0.2, 6), "steady-ramp": rng.uniform(0.05, 1.0), "ramp-down": -rng.uniform(0.2, 6)}.get(seg, 0.0)
         spacing = rng.choice([1, 5, 10, 20, 33.3, 40, 100, 250])
-        per_frame = rng.choice([1, 1, 2, 5, 12]) if seg in ("frames", "burst", "ramp-up") else 1
+        # the packets of a "burst" frame — and of the frame that ends an idle period — share ONE arrival millisecond
+        per_frame = rng.choice([1, 1, 2, 5, 12]) if seg in ("frames", "burst", "ramp-up", "idle") else 1
         for _ in range(seg_len):
             send += spacing
             for k in range(per_frame):
@@ -290,7 +448,7 @@ def _gen_history(rng, tier):
                 else:
                     size = rng.choice([0, 1, 100, 500, 1200, 1500, rng.randrange(0, 1501)])
                 delay = max(0.0, delay + slope + (rng.uniform(-3, 3) if seg == "jitter" else 0.0))
-                s = send + (0.0 if seg == "burst" else k * 0.3)
+                s = send + (0.0 if seg in ("burst", "idle") else k * 0.3)
                 arr = arrival_base + int(s - send0 + delay)
                 if arr < last_arrival:
                     arr = last_arrival
@@ -343,9 +501,70 @@ def _gen_overuse_tiny(rng, tier):
     return pk
 
 
+def _gen_video(rng, tier):
+    """A video-like stream: every frame is a burst of k packets that all arrive in the SAME millisecond (fast link).
+    Phases: smooth delivery; an idle gap (999 / 1000 / 1001 / 5000 ms … around and beyond the measurement window) after which
+    delivery resumes with a multi-packet frame; a phase of ≥ 1000 ms in which only empty packets (payload size 0) arrive, so
+    that the measured rate is exactly 0; and queues building up (one-way delay grows per frame) right after a gap / during the
+    empty phase, so that over-use is reported while the packets around the gap are still inside the window."""
+    budget = rng.choice([250, 400, 600]) if tier == "quick" else rng.choice([400, 800, 1500])
+    n_ssrc = rng.choice([1, 1, 2, 3])
+    ssrcs = [rng.choice([1, 4321, 0xFFFFFFFF, rng.randrange(1 << 32)]) for _ in range(n_ssrc)]
+    period = rng.choice([20.0, 1000 / 30, 40.0])
+    send = rng.choice([0.0, 0.0, 62000.0, rng.uniform(0, 64000)])
+    t0 = rng.choice([0, 20, rng.randrange(0, 1 << 33)])
+    base = send
+    delay = rng.choice([0.0, 10.0, 20.0])
+    k = rng.choice([1, 2, 3, 4, 6])
+    sizes = rng.choice([[1200], [1200], [1500, 1500, 300], [100], [0, 1200], [rng.randrange(0, 1501)]])
+    pk = []
+    last = t0
+    empty = False
+
+    def frame(n_packets, slope):
+        nonlocal send, delay, last
+        send += period
+        delay = max(0.0, delay + slope)
+        arr = max(last, t0 + int(send - base + delay))
+        last = arr
+        abs_ = int(send * (1 << 18) / 1000) % (1 << 24)
+        ssrc = rng.choice(ssrcs)
+        for j in range(n_packets):
+            pk.append([arr, abs_, 0 if empty else sizes[j % len(sizes)], ssrc])
+
+    # start-up: the very first frame is a burst as well
+    for _ in range(rng.choice([10, 70, 150])):
+        frame(k, 0.0)
+    while len(pk) < budget:
+        ev = rng.choice(["gap", "gap", "empty", "ramp", "smooth"])
+        if ev == "gap":
+            send += rng.choice([999, 1000, 1001, 5000, 2500, rng.randrange(900, 8000)]) - period
+            delay = rng.choice([delay, 0.0, 20.0])
+            frame(rng.choice([k, k, 2, 5]), 0.0)
+            ev = rng.choice(["ramp", "ramp", "smooth"])
+        elif ev == "empty":
+            empty = True
+            for _ in range(int(rng.choice([1000, 1100, 2000]) / period) + 1):
+                frame(rng.choice([1, k]), 0.0)
+            ev = rng.choice(["ramp", "ramp", "smooth"])
+        if ev == "ramp":
+            slope = rng.choice([4.0, 8.0, 12.0, rng.uniform(2, 15)])
+            for _ in range(rng.randrange(15, 45)):
+                frame(k, slope)
+            for _ in range(rng.randrange(0, 20)):      # the queue drains
+                frame(k, -2 * slope)
+        else:
+            for _ in range(rng.randrange(5, 60)):
+                frame(k, 0.0)
+        if empty and rng.random() < 0.5:
+            empty = False
+    return pk[:budget]
+
+
 class Rbe(Component):
     name = "rbe"
-    theorems = ["add_step", "run_history", "run_from_new", "countStep_ok", "global_window_exact", "dictSet_keys"]
+    theorems = ["add_step", "run_history", "run_from_new", "countStep_ok", "global_window_exact", "dictSet_keys",
+                "update_overuse_exact", "update_records_measurement"]
 
     def __init__(self):
         self._cache = {}
@@ -358,19 +577,23 @@ class Rbe(Component):
             {"p": [[0, 0, 0, 1]]},
             {"p": [[0, 0, 1200, 1], [0, 0, 1200, 1], [1, 262, 1200, 2]]},
             {"p": [[5, 16777215, 100, 1], [10, 2, 100, 1], [1010, 300000, 0, 1], [7000, 300001, 1500, 9]]},
+            # a lone packet, an idle period, then a burst in one millisecond (the window is NOT re-anchored: no measurement had been available)
+            {"p": [[0, 0, 1200, 1], [5000, 1310720, 1200, 1], [5000, 1310720, 1200, 1], [5001, 1310982, 1200, 1]]},
         ]
 
     def cases(self, rng, tier):
-        n = 260 if tier == "quick" else 3000
+        n = 300 if tier == "quick" else 3000
         out = []
         for i in range(n):
-            r = i % 10
+            r = i % 12
             if r < 6:
                 out.append({"p": _gen_history(rng, tier)})
             elif r < 8:
                 out.append({"p": _gen_raw(rng, tier)})
-            else:
+            elif r < 10:
                 out.append({"p": _gen_overuse_tiny(rng, tier)})
+            else:
+                out.append({"p": _gen_video(rng, tier)})
         return out
 
     def model_line(self, case):
@@ -392,7 +615,8 @@ class Rbe(Component):
 
     def label(self, case, impl_out):
         fl = self._run(case)[2]
-        keep = [f for f in ("raise", "overuse", "underuse", "inc-add", "inc-mul", "init", "reset", "zero-estimate", "backwards") if f in fl]
+        keep = [f for f in ("unobservable", "raise", "overuse", "overuse@zero-rate", "underuse", "inc-add", "inc-mul", "init", "reset", "burst@anchor",
+                            "zero-estimate", "backwards") if f in fl]
         return "+".join(keep) if keep else ("estimate-only" if "estimate" in fl else "no-estimate")
 
     def nontrivial(self, case, impl_out):
@@ -430,17 +654,21 @@ class Rbe(Component):
 # ----------------------------------------------------------------------------------------------
 
 def run_counter(w, scale, ops):
+    """Public calls: RateCounter(w, scale), add(value, now), rate(now), reset().  The oracle compares every rate() RESULT with the rate of the
+    samples of the last w ms recomputed from the op sequence; the internal total / origin only go into the correspondence string."""
     from aiortc.rate import RateCounter
     try:
         c = RateCounter(w, scale)
     except Exception as exc:
-        return _exc(exc), None, set()
+        return _exc(exc), f"RateCounter({w}, {scale}) raised {type(exc).__name__}: {exc}", {"raise"}
     recs = []
-    hist = []
     failure = None
     flags = set()
     last = None
+    hist = []        # samples since construction / the last reset()
+    origin = None    # reference origin: first add, then slid by every add / rate call
     for i, op in enumerate(ops):
+        res = None
         try:
             if op[0] == "a":
                 _, v, now = op
@@ -449,37 +677,41 @@ def run_counter(w, scale, ops):
             elif op[0] == "r":
                 now = op[1]
                 res = c.rate(now)
-                r = _oi(res)
+                r = _f(lambda: _oi(res))
                 flags.add("rate-none" if res is None else "rate")
             else:
                 c.reset()
-                hist = []
-                last = None
-                recs.append(f"x/{c._total.count}/{c._total.value}/{_oi(c._origin_ms)}/{c._origin_index}")
+                r = "x"
                 flags.add("reset")
-                continue
         except Exception as exc:
             if failure is None:
                 failure = f"op {i} {op}: raised {type(exc).__name__}: {exc}"
             return _exc(exc), failure, flags | {"raise"}
+        recs.append(r + "/" + "/".join(_f(fn) for fn in (lambda: _oi(c._total.count), lambda: _oi(c._total.value),
+                                                        lambda: _oi(c._origin_ms), lambda: _oi(c._origin_index))))
+        if op[0] == "x":
+            hist, origin, last = [], None, None
+            continue
         if last is not None and now < last:
             flags.add("backwards")
         if last is not None and now - last >= w:
             flags.add("idle>window")
+        if last is not None and now == last and op[0] == "a":
+            flags.add("same-ms")
         last = now if last is None else max(last, now)
         if op[0] == "a":
+            origin = now if origin is None else max(origin, now - w + 1)
             hist.append((now, v))
-        recs.append(f"{r}/{c._total.count}/{c._total.value}/{_oi(c._origin_ms)}/{c._origin_index}")
-        if "backwards" not in flags and failure is None and hist:
-            inwin = [(t, v) for (t, v) in hist if now - w < t <= now]
-            cnt, tot = len(inwin), sum(v for _, v in inwin)
-            if (c._total.count, c._total.value) != (cnt, tot):
-                failure = (f"op {i} {op}: total ({c._total.count}, {c._total.value}) differs from the samples in ({now - w}, {now}]: ({cnt}, {tot})")
-            elif op[0] == "r":
-                active = now - c._origin_ms + 1
-                want = _round_half_even(scale * tot, active) if (cnt > 0 and active > 1) else None
-                if res != want:
-                    failure = f"op {i} {op}: rate() = {res}, expected {want}"
+        elif origin is not None:
+            origin = max(origin, now - w + 1)
+        if op[0] == "r" and "backwards" not in flags and failure is None:
+            inwin = [(t, x) for (t, x) in hist if now - w < t <= now]
+            cnt, tot = len(inwin), sum(x for _, x in inwin)
+            active = None if origin is None else now - origin + 1
+            want = _round_half_even(scale * tot, active) if (cnt > 0 and active is not None and active > 1) else None
+            if res != want or (res is not None and type(res) is not int):
+                failure = (f"op {i} {op}: rate({now}) = {res!r}, but the samples in ({now - w}, {now}] are {cnt} samples / sum {tot} "
+                           f"over an active window of {active} ms = {want}")
     return "ok " + ";".join(recs), failure, flags
 
 
@@ -495,6 +727,7 @@ class Counter(Component):
             {"w": 10, "s": 1, "ops": [["a", 1, 0], ["r", 0], ["a", 2, 9], ["r", 9], ["r", 10], ["r", 19], ["r", 20]]},
             {"w": 1000, "s": 8000, "ops": [["a", 1500, 5], ["a", 3, 6], ["r", 6], ["r", 1004], ["r", 1005], ["r", 1006]]},
             {"w": 3, "s": 8000, "ops": [["a", 1, 0], ["a", 1, 1], ["r", 1], ["a", 1, 2], ["r", 2], ["a", 1, 3], ["r", 3], ["x"], ["r", 3], ["a", 5, 3]]},
+            {"w": 1000, "s": 8000, "ops": [["a", 1200, 7], ["a", 1200, 7], ["a", 1200, 7], ["r", 7], ["r", 8], ["r", 1006], ["r", 1007]]},
         ]
 
     def cases(self, rng, tier):
@@ -556,41 +789,57 @@ class Counter(Component):
 # ----------------------------------------------------------------------------------------------
 
 def run_aimd(ops):
-    from aiortc.rate import AimdRateControl, BandwidthUsage, RateControlState
-    rc = AimdRateControl()
+    """Public calls: AimdRateControl().update(usage, estimated_throughput, now_ms).  The oracle uses the arguments and the returned values
+    only: m = the throughput passed in (0 is a measurement like any other), else the latest one passed to an update that reported;
+    previous estimate = the previous returned value."""
+    from aiortc.rate import AimdRateControl, BandwidthUsage
+    try:
+        rc = AimdRateControl()
+    except Exception as exc:
+        return _exc(exc), f"AimdRateControl() raised {type(exc).__name__}: {exc}", {"raise"}
     recs = []
     failure = None
     flags = set()
+    latest = None
+    prev = 0
     for i, (u, est, now) in enumerate(ops):
         usage = BandwidthUsage(u)
-        cur_before = rc.current_bitrate
-        latest_before = rc.latest_estimated_throughput
         try:
             ret = rc.update(usage, est, now)
         except Exception as exc:
-            failure = f"update #{i} ({usage.name}, {est}, {now}) raised {type(exc).__name__}: {exc}"
+            failure = failure or f"update #{i} ({usage.name}, {est}, {now}) raised {type(exc).__name__}: {exc}"
             return _exc(exc), failure, flags | {"raise"}
-        recs.append(f"{_oi(ret)}|{_aimd_ints(rc)}|" + ".".join(format(b, "x") for b in _aimd_floats(rc)))
-        m = est if est is not None else latest_before
+        recs.append(_f(lambda: _oi(ret)) + "|" + _aimd_ints(rc) + "|" + _f(lambda: ".".join(format(b, "x") for b in _aimd_floats(rc))))
         if ret is None:
             flags.add("wait")
+            if usage == BandwidthUsage.OVERUSING and failure is None:
+                failure = f"update #{i}: over-use but no estimate returned"
             continue
         flags.add("estimate")
+        m = est if est is not None else latest
         if failure is None:
             if type(ret) is not int or ret < 0:
                 failure = f"update #{i}: estimate {ret!r} is not a non-negative integer"
-            elif not _cap_ok(ret, m, cur_before):
-                failure = f"update #{i}: estimate {ret} rose above 1.5·{m}+10000 (previous {cur_before})"
-            elif usage == BandwidthUsage.OVERUSING and not _cut_ok(ret, m):
-                failure = f"update #{i}: over-use but estimate {ret} > 85 % of {m}"
-            elif ret != rc.current_bitrate:
-                failure = f"update #{i}: returned {ret} but current_bitrate is {rc.current_bitrate}"
+            elif m is not None and m >= 0:
+                if not _cap_ok(ret, m, prev):
+                    failure = f"update #{i}: estimate {ret} rose above 1.5·{m}+10000 (previous estimate {prev})"
+                elif usage == BandwidthUsage.OVERUSING and not _cut_ok(ret, m):
+                    failure = f"update #{i}: over-use but estimate {ret} > 85 % of the measured {m}"
+                elif usage == BandwidthUsage.OVERUSING and not _cut_exact(ret, m):
+                    failure = f"update #{i}: over-use but estimate {ret} is not 85 % of the measured {m} (= {round(0.85 * m)})"
+        if type(ret) is int:
+            prev = ret
+        if est is not None:
+            latest = est
         if usage == BandwidthUsage.OVERUSING:
             flags.add("decrease")
-        elif rc.state == RateControlState.INCREASE:
-            flags.add("inc-add" if rc.near_max else "inc-mul")
+            if m == 0:
+                flags.add("cut@0")
         else:
-            flags.add("hold")
+            try:  # label only
+                flags.add(("inc-add" if rc.near_max else "inc-mul") if rc.state.name == "INCREASE" else "hold")
+            except Exception:
+                flags.add("hold")
         if ret == 0:
             flags.add("zero")
     return "ok " + ";".join(recs), failure, flags
@@ -598,7 +847,8 @@ def run_aimd(ops):
 
 class AimdC(Component):
     name = "aimd"
-    theorems = ["update_cap", "update_never_rises_above", "update_overuse_cut", "update_overuse_85", "update_nonneg", "update_total",
+    theorems = ["update_cap", "update_never_rises_above", "update_overuse_cut", "update_overuse_85", "update_overuse_exact",
+                "update_records_measurement", "update_nonneg", "update_total",
                 "nearMaxInc_no_zero_division", "nearMaxInc_unfixed_zero_division"]
 
     def __init__(self):
@@ -611,6 +861,8 @@ class AimdC(Component):
             {"ops": [[0, 300000, 0], [0, 300000, 3001], [0, 300000, 3500], [2, 200000, 4000], [0, 200000, 4500], [0, 250000, 5000],
                      [1, 250000, 5500], [0, 900000, 6000], [0, 900000, 6500]]},
             {"ops": [[2, None, 0], [0, None, 10], [0, None, 20]]},
+            # a measurement of exactly 0 is a measurement: cut to 0, recorded as the latest one (used by the update without a measurement)
+            {"ops": [[2, 163200, 0], [2, 0, 600], [2, None, 700], [0, None, 1300]]},
         ]
 
     def cases(self, rng, tier):
@@ -655,7 +907,7 @@ class AimdC(Component):
 
     def label(self, case, impl_out):
         fl = self._run(case)[2]
-        keep = [f for f in ("raise", "decrease", "inc-add", "inc-mul", "zero") if f in fl]
+        keep = [f for f in ("unobservable", "raise", "decrease", "cut@0", "inc-add", "inc-mul", "zero") if f in fl]
         return "+".join(keep) or ("hold" if "hold" in fl else "wait-only")
 
     def nontrivial(self, case, impl_out):
@@ -680,9 +932,21 @@ LITERALS = [0.4, 1.08, 1.5, 0.85, 0.05, 2.5, 0.0087, 0.039, 12.5, 100.0, 0.1, 1e
             30.0, 1000.0, 3.0, 0.5, None, 1.0 / 64.0]
 
 
+def _mult_increase(m):
+    """`AimdRateControl._multiplicative_rate_increase(m, 0, 500)` — a private helper, read for the correspondence of the float hypotheses
+    only; None when it is not there (the hypothesis is then not checked here, the `aimd` component still compares every update)."""
+    try:
+        from aiortc.rate import AimdRateControl
+        v = AimdRateControl()._multiplicative_rate_increase(m, 0, 500)
+        return v if type(v) is int else None
+    except Exception:
+        return None
+
+
 class Misc(Component):
     name = "misc"
-    theorems = ["remb_encodable", "update_never_rises_above", "update_overuse_85", "update_nonneg", "nearMaxInc_unfixed_zero_division", "rate_const"]
+    theorems = ["remb_encodable", "update_never_rises_above", "update_overuse_85", "update_overuse_exact", "update_nonneg",
+                "nearMaxInc_unfixed_zero_division", "rate_const"]
 
     def cases(self, rng, tier):
         out = [{"k": "consts"}]
@@ -724,10 +988,9 @@ class Misc(Component):
         if case["k"] == "fp":
             import math
             return f"ok {math.ceil(case['cur'] / 30 / (8 * 1200))}"
-        from aiortc.rate import AimdRateControl
         m = case["m"]
-        rc = AimdRateControl()
-        return (f"ok {int(1.5 * m)},ok {round(0.85 * m)},ok {rc._multiplicative_rate_increase(m, 0, 500)},"
+        mi = _mult_increase(m)
+        return (f"ok {int(1.5 * m)},ok {round(0.85 * m)},{'?' if mi is None else 'ok ' + str(mi)},"
                 f"ok {int(m / 1000)}")
 
     def oracle(self, case, impl_out):
@@ -754,8 +1017,10 @@ class Misc(Component):
                 return f"float hypothesis: int(1.5·{m}) = {f15} not in [{m}, {3 * m // 2}]"
             if not (0 <= r85 and 100 * r85 <= 85 * m + 100):
                 return f"float hypothesis: round(0.85·{m}) = {r85} not in [0, 0.85·{m}+1]"
-            from aiortc.rate import AimdRateControl
-            if AimdRateControl()._multiplicative_rate_increase(m, 0, 500) < 0 or int(m / 1000) < 0:
+            if not r85 <= f15 + 10000:
+                return f"float hypothesis: round(0.85·{m}) = {r85} above int(1.5·{m}) + 10000"
+            mi = _mult_increase(m)
+            if (mi is not None and mi < 0) or int(m / 1000) < 0:
                 return f"float hypothesis (SignFacts): negative increase for {m}"
         if case["k"] == "fp":
             # the packet count of _near_max_rate_increase is 0 exactly for a zero bitrate (the defect's trigger)
